@@ -75,9 +75,28 @@ pub fn check(c: &Case) -> Verdict {
         None if base > 0 => Some(base),
         None => None,
     };
+    // pruned directory: the range is moved so that it starts right behind the last block of some blk file (the file
+    // that holds block s-1 is then among the deleted ones)
+    let mut start = start;
+    let mut end_opt = c.end;
+    if let (true, Some(l), Some(s0)) = (c.pruned, &c.layout, start) {
+        let nb = built.blocks.len();
+        let mut top: std::collections::BTreeMap<usize, usize> = std::collections::BTreeMap::new();
+        for i in 0..nb {
+            top.insert(l.file_of(i), i);
+        }
+        let cands: Vec<u64> = (1..nb).filter(|i| top.get(&l.file_of(i - 1)) == Some(&(i - 1))).map(|i| built.blocks[i].0).collect();
+        if !cands.is_empty() {
+            let pick = cands[(s0 as usize) % cands.len()];
+            start = Some(pick);
+            if end_opt.map(|x| x <= pick).unwrap_or(false) {
+                end_opt = None;
+            }
+        }
+    }
     let s = start.unwrap_or(0);
-    let e = c.end.map(|e| e.min(tip)).unwrap_or(tip);
-    if s > tip || s < base || c.end.map(|x| x <= s).unwrap_or(false) {
+    let e = end_opt.map(|e| e.min(tip)).unwrap_or(tip);
+    if s > tip || s < base || end_opt.map(|x| x <= s).unwrap_or(false) {
         // outside the accepted domain (generators avoid this; shrinking may reach it)
         return Verdict::Pass(Pass::default());
     }
@@ -104,7 +123,7 @@ pub fn check(c: &Case) -> Verdict {
     }
     let mut o = RunOpts::new(built.coin, c.cb);
     o.start = start;
-    o.end = c.end;
+    o.end = end_opt;
     if c.pause {
         o.pause_on = Some(("Processing blocks starting from height".to_string(), 10.5));
     }
@@ -124,7 +143,7 @@ pub fn check(c: &Case) -> Verdict {
     // model-free slice relation for the per-block outputs
     let ranged = c.start.is_some() || c.end.is_some();
     let mut sub = 1;
-    if ranged && base == 0 && matches!(c.cb, Callback::CsvDump | Callback::OpReturn) {
+    if ranged && base == 0 && !c.pruned && matches!(c.cb, Callback::CsvDump | Callback::OpReturn) {
         let whole = infra!(w.run(&RunOpts::new(built.coin, c.cb)));
         sub += 1;
         if !whole.ok() {
